@@ -15,8 +15,8 @@ import (
 // of the File that was encoded (file_id, file_creator, timestamp_correlation, then the container's messages in struct order) and
 // compares every field on the wire with the File's value: scalars exactly, arrays element by
 // element with the tail the File does not have equal to the base type's invalid value, strings up
-// to the profile's fixed length with zero fill. A valid scalar of the File that is missing from the
-// record is a difference too.
+// to the profile's fixed length with zero fill. A valid scalar of the File, or an array holding a
+// valid element at any position, that is missing from the record is a difference too.
 
 type wireField struct {
 	num, size int
@@ -235,7 +235,34 @@ func wireValuesAgree(dump string, recs []wireRec) string {
 				continue
 			}
 			v := m.vals[f[0]]
-			if len(v) == 0 || tcArray(f[2]) {
+			if len(v) == 0 {
+				continue
+			}
+			if tcArray(f[2]) {
+				// an array that holds a valid element anywhere must be on the wire too
+				if (v[0] == 'U' || v[0] == 'I') && len(v) >= 3 {
+					bt := tcBase(f[2])
+					bs := btSize[bt]
+					for k, e := range splitElems(v) {
+						var x uint64
+						if strings.HasPrefix(e, "-") {
+							i, err := strconv.ParseInt(e, 10, 64)
+							if err != nil {
+								continue
+							}
+							x = maskTo(uint64(i), bs)
+						} else {
+							u, err := strconv.ParseUint(e, 10, 64)
+							if err != nil {
+								continue
+							}
+							x = maskTo(u, bs)
+						}
+						if bs > 0 && x != btInvalidRaw(bt) {
+							return fmt.Sprintf("%s field %s: File has %s (element %d is valid), the record does not carry the field", fp[i], facts.FNames[f[0]], clipS(v), k)
+						}
+					}
+				}
 				continue
 			}
 			switch v[0] {
